@@ -67,7 +67,8 @@ func (pnf *PageNumberFinder) FindPagination(root *html.Node, pageURL *nurl.URL) 
 	url := *pageURL
 	url.Path = strings.TrimSuffix(url.Path, "/")
 	url.RawPath = url.Path
-	strPageURL := stringutil.UnescapedString(&url)
+	// Page infos carry their URL in escaped form (URL.String), so the page's own URL is compared in that form
+	strPageURL := url.String()
 
 	paramInfo := pnf.FindOutlink(root, &url)
 	if paramInfo.Type != info.PageNumber {
